@@ -252,6 +252,12 @@ def r5_bookkeeping(r, facts):
                     if e[0] == 'proj' and e[2] == ('.0',):
                         e = e[1]
                     if e[0] == 'bin' and e[1].startswith('Add') and fam.last_field(e[2]) == 'offset':
+                        # the increment is the byte count of *this* transfer (not a cumulative counter)
+                        inc = e[3]
+                        while inc[0] == 'cast':
+                            inc = inc[4]
+                        is_n = (inc[0] == 'local' and inc[2] == 'n') or (inc[0] == 'proj' and inc[2][-1:] == ('.1',) and '@Ok' in inc[2])
+                        r.require(is_n, '%s/offset-step' % name, 'the file offset is advanced by %s instead of the number of bytes of the last transfer: from the second continuation on data lands at the wrong position' % (inc,), g.where(l))
                         # guarded by offset != NO_OFFSET
                         guard = False
                         for (b, tgt) in controlling_switches(g, l):
